@@ -14,6 +14,21 @@ PROPS = {
         "thorough": {"stages": [st("^TestC01", 15000, shards=16)],
                      "fuzz": [{"target": "FuzzC01Serialize", "seconds": 90}]},
     },
+    "C03": {
+        "pkg": "core", "level": "exploration",
+        "quick": {"stages": [st("^TestStore", 1200)]},
+        "thorough": {"stages": [st("^TestStore", 6000, shards=16, timeout=1800)]},
+    },
+    "C04": {
+        "pkg": "core", "level": "exploration",
+        "quick": {"stages": [st("^TestStore", 3000)]},
+        "thorough": {"stages": [st("^TestStore", 12000, shards=16, timeout=1800)]},
+    },
+    "C05": {
+        "pkg": "core", "level": "exploration",
+        "quick": {"stages": [st("^TestStore", 3000)]},
+        "thorough": {"stages": [st("^TestStore", 12000, shards=16, timeout=1800)]},
+    },
     "C10": {
         "pkg": "core", "level": "exploration",
         "quick": {"stages": [st("^TestC10", 15000)]},
